@@ -389,6 +389,20 @@ pub fn build_reader(
     feed: &Feed,
     cuts: Option<Rc<Vec<usize>>>,
 ) -> (DeferredReader<'static>, Rc<RefCell<SrcLog>>) {
+    let (r, log, _) = build_reader_consumed(data, feed, cuts, 0);
+    (r, log)
+}
+
+/// Like `build_reader`; with the `BufReader` constructor, up to `consume` of the bytes sitting in
+/// the BufReader's buffer are consumed before it is handed to `from_buf_reader` ("partly consumed
+/// BufReader"). Returns how many bytes were consumed: the reader's stream starts behind them.
+pub fn build_reader_consumed(
+    data: Rc<Vec<u8>>,
+    feed: &Feed,
+    cuts: Option<Rc<Vec<usize>>>,
+    consume: usize,
+) -> (DeferredReader<'static>, Rc<RefCell<SrcLog>>, usize) {
+    let mut skipped = 0;
     let (src, log) = Source::with_cuts(data, feed.sched.clone(), cuts);
     let mut reader = match feed.ctor {
         Ctor::FromRead => DeferredReader::from_read(src),
@@ -399,13 +413,15 @@ pub fn build_reader(
             let mut br = BufReader::with_capacity(cap.max(1), src);
             let _ = br.fill_buf();
             *prefill.borrow_mut() = false;
+            skipped = consume.min(br.buffer().len());
+            br.consume(skipped);
             DeferredReader::from_buf_reader(br)
         }
     };
     if let Some(c) = feed.chunk {
         reader.set_chunk_size(c.max(1));
     }
-    (reader, log)
+    (reader, log, skipped)
 }
 
 // ---------------------------------------------------------------------------------------------
